@@ -81,6 +81,13 @@ def swarm(seed, tier, profile="general"):
             roots.append(r.choice(MEASURE_ROOTS + PDF_ROOTS))
         if not any(c in roots for c in FACTOR_ROOTS):
             roots.append(r.choice(FACTOR_ROOTS))
+    if profile == "repr":
+        spec = ["GaussianDiagMeasure", "GaussianDiagPDF", "ConditionalGaussianDiagPDF", "ConditionalIdentityGaussianPDF",
+                "ConditionalIdentityDiagGaussianPDF", "OneRankFactor", "LinearFactor", "ConstantFactor", "NNControlGaussianConditional"]
+        roots = [c for c in spec if r.coin(0.6)]
+        if not roots:
+            roots = [r.choice(spec)]
+        roots += [r.choice(["GaussianDiagPDF", "GaussianDiagMeasure", "GaussianPDF"])]
     cfg["roots"] = roots
     cfg["fault_rate"] = r.uniform(0.25, 0.7)
     return cfg
@@ -146,11 +153,17 @@ class Gen:
         if model.KIND[cls] == "cond" and cls not in IDENT:
             Dx = Dx or (r.choice(self.dims()) if r.coin(0.7) else r.integers(1, cfg["D"]))
             D = r.integers(1, max(cfg["D"], 1)) if D is None or r.coin(0.5) else D
+        if cls == "NNControlGaussianConditional":
+            Dy, Du = D, r.integers(1, 3)
+            Ru = R
+            kw = {"Sigma": r.spd(1, Dy, cfg["cond_max"]), "num_cond_dim": int(Dx), "num_control_dim": int(Du),
+                  "W": r.normal((Du, Dy * (Dx + 1)), 0.8), "c": r.normal((Dy * (Dx + 1),), 0.5)}
+            return {"op": "root", "cls": cls, "kw": kw, "u": r.normal((Ru, Du), 1.0), "variant": "nn", "out": self.nid()}
         kw, variant = model.gen_root(r, cls, R, D, Dx=Dx, cond_max=cfg["cond_max"])
         return {"op": "root", "cls": cls, "kw": kw, "variant": variant, "out": self.nid()}
 
     def g_slice(self):
-        s = self.pick()
+        s = self.pick(pred=lambda s: s.u is None)
         if s is None:
             return None
         return {"op": "slice", "a": s.id, "idx": self.r.idx_array(s.R, maxlen=min(s.R + 1, 5)), "out": self.nid()}
@@ -228,6 +241,8 @@ class Gen:
         if c is None:
             return None
         N = self.r.integers(1, max(1, min(self.cfg["Nmax"], self.cfg["Rcap"] // c.R)))
+        if c.u is not None and c.R > 1 and self.cfg["profile"] == "subbatch":
+            return None
         return {"op": "cond_x", "a": c.id, "x": self.r.normal((N, int(c.obj.Dx)), 1.5), "call": self.r.coin(0.3), "out": self.nid()}
 
     def g_set_y(self):
@@ -283,7 +298,7 @@ class Gen:
         return {"op": "update", "a": a.id, "d": did, "idx": idx}
 
     def g_update_sigma(self):
-        c = self.pick(("cond",))
+        c = self.pick(("cond",), lambda s: s.u is None)
         if c is None:
             return None
         diag = "Diag" in c.cls
@@ -324,6 +339,12 @@ class Gen:
                     "C_mat": mat(L), "c_vec": vec(L), "D_mat": mat(M), "d_vec": vec(M)}
         raise KeyError(key)
 
+    def fresh_pdf(self, D, R=None):
+        root = self.g_root(self.r.choice(PDF_ROOTS), R=R or self.r.integers(1, self.cfg["Rmax"]), D=D)
+        if not self.emit(root):
+            return None
+        return self.w.slots[root["out"]]
+
     def g_obs(self):
         r = self.r
         s = self.pick()
@@ -340,7 +361,7 @@ class Gen:
                               "is_normalized", "to_dict"], [3, 6, 1, 1, 1, 1.5, 2, 0.5, 0.5])
         else:
             name = r.wchoice(["get_conditional_mu", "conditional_entropy", "mutual_information",
-                              "integrate_log_conditional", "integrate_log_conditional_y", "attrs"], [2, 1, 1, 1.5, 1.5, 2])
+                              "integrate_log_conditional", "integrate_log_conditional_y", "attrs"], [2, 1, 1, 1.5, 1.5, 2 if s.u is None else 0])
         rec["name"] = name
         if name in ("evaluate_ln", "evaluate", "call"):
             ew = r.coin(0.25)
@@ -366,7 +387,9 @@ class Gen:
             Dx = int(s.obj.Dx)
             p = self.pick(("pdf",), lambda t: t.D == Dx and (t.R == 1 or s.R == 1))
             if p is None:
-                return None
+                p = self.fresh_pdf(Dx, 1 if s.R > 1 else None)
+                if p is None:
+                    return None
             rec["p"] = p.id
         elif name == "integrate_log_conditional":
             Dxy = int(s.obj.Dx) + int(s.obj.Dy)
@@ -374,7 +397,9 @@ class Gen:
                 return None
             p = self.pick(("pdf",), lambda t: t.D == Dxy)
             if p is None:
-                return None
+                p = self.fresh_pdf(Dxy)
+                if p is None:
+                    return None
             rec["p"] = p.id
         elif name == "integrate_log_conditional_y":
             Dx = int(s.obj.Dx)
@@ -382,7 +407,9 @@ class Gen:
                 return None
             p = self.pick(("pdf",), lambda t: t.D == Dx)
             if p is None:
-                return None
+                p = self.fresh_pdf(Dx)
+                if p is None:
+                    return None
             rec["p"] = p.id
             rec["y"] = r.normal((p.R, int(s.obj.Dy)), 1.5)
             rec["callable"] = r.coin(0.4)
@@ -421,6 +448,8 @@ class Gen:
                 n_ops += 1
         # close the history with observations of everything still alive
         for s in sorted(self.w.live(), key=lambda s: s.id)[-4:]:
+            if s.u is not None:
+                continue  # the NN-controlled object itself is not a batch of R_u components
             rec = {"op": "obs", "a": s.id, "name": "attrs"}
             self.emit(rec)
             if s.kind in ("measure", "pdf", "factor"):
@@ -430,7 +459,7 @@ class Gen:
         return self.records
 
 
-def fault_schedule(seed, k, records, cfg, kinds=("warm", "dup", "evict"), restore_vias=()):
+def fault_schedule(seed, k, records, cfg, kinds=("warm", "dup", "evict"), restore_vias=(), slot_cls=None):
     """Fault sub-stream k for one workload: faults placed between the creation of an object
     and one of its next uses as an operand (never on objects that are not used again)."""
     r = Rng(seed, "faults", k)
@@ -443,12 +472,20 @@ def fault_schedule(seed, k, records, cfg, kinds=("warm", "dup", "evict"), restor
             born[rec["out"]] = i
     faults = {}
     n = 0
+    swapped = set()
     rate = cfg.get("fault_rate", 0.5)
+    if "swap" in kinds:
+        rate = max(rate, 0.6) / 0.6 * r.choice([0.3, 0.6, 1.0])
     for sid in sorted(uses):
         for step in uses[sid]:
             if not r.coin(rate * 0.6):
                 continue
             kind = r.choice(list(kinds) + (["restore"] if restore_vias else []))
+            if kind == "swap":
+                from .perturb import SPECIALISED
+                if slot_cls is None or slot_cls.get(sid) not in SPECIALISED or sid in swapped:
+                    continue
+                swapped.add(sid)
             f = {"kind": kind, "slot": sid}
             if kind == "rekey":
                 f["key"] = [int(r.g.integers(0, 2 ** 32)), int(r.g.integers(0, 2 ** 32))]
